@@ -55,8 +55,8 @@ def write_replay(v, n):
 
 def write_evidence(pid, tier, seed, level, coverage, assumptions, wall_s, violations):
     global EVID
-    if os.path.realpath(REPO) != '/repo':
-        # development runs against a scratch worktree never touch the committed evidence
+    if os.path.realpath(REPO) != '/repo' or os.environ.get('VERIF_DEV_RUN'):
+        # development runs (scratch worktree, or a seeded patch applied to /repo) never touch the committed evidence
         EVID = os.path.join(BUILD, 'evidence_alt')
     os.makedirs(EVID, exist_ok=True)
     ev = {'property_id': pid, 'tier': tier, 'seed': seed, 'level': level, 'coverage': coverage,
